@@ -629,9 +629,12 @@ def mutant_inputs(ctx, cov, fmts, defs, ms):
 
 def check_faults(ctx, cov, prop):
     """C07 and C18 share the enumeration; they differ in the build, the formats and the checks evaluated"""
-    ms = [m for m in corpus(ctx.tier, ctx.seed) if m.name in
-          (('verts', 'edges', 'mixed', 'tet1', 'tet1p', 'hex1', 'ttet', 'bools', 'rand0') if ctx.tier == 'quick' else
-           ('empty', 'verts', 'edges', 'mixed', 'tet1', 'tet1p', 'hex1', 'tet2', 'ttet', 'thex', 'alltypes', 'asciitypes', 'bools', 'rand0', 'rand1', 'rand2'))]
+    if ctx.tier == 'quick':
+        names = ('verts', 'mixed', 'tet1p', 'ttet') if prop == 'C07' else ('verts', 'edges', 'mixed', 'tet1', 'tet1p', 'hex1', 'ttet', 'bools', 'rand0')
+    else:
+        names = ('empty', 'verts', 'edges', 'mixed', 'tet1', 'tet1p', 'hex1', 'tet2', 'ttet', 'thex', 'alltypes', 'asciitypes', 'bools', 'names', 'rand0', 'rand1', 'rand2')
+    ms = [m for m in corpus(ctx.tier, ctx.seed) if m.name in names]
+    ascii_names = ('mixed', 'tet1p') if ctx.tier == 'quick' else names
     defs = meshdefs_of(ms)
     fmts = ['ovmb', 'ascii'] if prop == 'C07' else ['ovmb']
     jobs, jmap, recs = mutant_inputs(ctx, cov, fmts, defs, ms)
@@ -644,11 +647,20 @@ def check_faults(ctx, cov, prop):
     mtype = {i + 1: json.loads(l)['mt'] for i, l in enumerate(src)}
     rnd = random.Random(ctx.seed)
     rj, j, kinds = [], 1, {}
+    nadd = [0]
     def add(fmt, data, mt_src, kind):
         nonlocal j
-        cfgs = [('poly', 1, 1)] if prop == 'C18' and ctx.tier == 'quick' else [('poly', 1, 1), ('poly', 0, 0)]
-        if mt_src in ('tet', 'hex'):
-            cfgs = cfgs + [(mt_src, 1, 1)]
+        nadd[0] += 1
+        if ctx.tier == 'quick' and kind != 'identity':
+            # one configuration per input, rotating; the thorough tier reads every input in every configuration
+            rot = [('poly', 1, 1), ('poly', 0, 0)] if prop == 'C07' else [('poly', 1, 1)]
+            if mt_src in ('tet', 'hex'):
+                rot = rot + [(mt_src, 1, 1)]
+            cfgs = [rot[nadd[0] % len(rot)]]
+        else:
+            cfgs = [('poly', 1, 1), ('poly', 0, 0)]
+            if mt_src in ('tet', 'hex'):
+                cfgs = cfgs + [(mt_src, 1, 1), (mt_src, 0, 0)]
         for (mt, tc, bu) in cfgs:
             rj.append(read_job(j, fmt, mt, tc, bu, data)); kinds[j] = kind; j += 1
     for e in g['mut']:
@@ -671,11 +683,11 @@ def check_faults(ctx, cov, prop):
         # ASCII: line / token edits (enumerated from the token table), seeded random bytes for both formats
         for s, l in enumerate(src, 1):
             d = json.loads(l)
-            if d['fmt'] != 'ascii':
+            if d['fmt'] != 'ascii' or jmap[d['j']].split()[2] not in ascii_names:
                 continue
             for data, kind in ascii_mutants(bytes(d['bytes']), rnd, ctx.tier):
                 add('ascii', data, d['mt'], kind)
-        nr = 300 if ctx.tier == 'quick' else 3000
+        nr = 200 if ctx.tier == 'quick' else 3000
         for i in range(nr):
             n = rnd.choice([0, 1, 7, 16, 47, 48, 49, 64, 100, 300])
             data = bytes(rnd.randrange(256) for _ in range(n))
@@ -686,7 +698,7 @@ def check_faults(ctx, cov, prop):
         # random byte flips / inserts / deletes of the valid files
         for s, data in base.items():
             fmt = json.loads(src[s - 1])['fmt']
-            for i in range(40 if ctx.tier == 'quick' else 400):
+            for i in range(30 if ctx.tier == 'quick' else 400):
                 b = bytearray(data)
                 for _ in range(rnd.randint(1, 3)):
                     if not b: break
@@ -710,7 +722,7 @@ def check_faults(ctx, cov, prop):
                 rj.append(read_job(j, 'ovmb', 'poly', 0, 0, data[:k])); kinds[j] = 'trunc-shipped'; j += 1
     rmap = {int(x.split()[1]): x for x in rj}
     t0 = time.time()
-    rrecs = run_exec(ctx.variant, '', rj, ctx.work, 'r', timeout_ms=20000 if ctx.variant == 'san' else 10000)
+    rrecs = run_exec(ctx.variant, '', rj, ctx.work, 'r', timeout_ms=(6000 if ctx.tier == 'quick' else 20000) if ctx.variant == 'san' else 10000)
     cov['exec_wall_s'] = round(time.time() - t0, 1)
     log('%s: %d inputs executed in %.0fs' % (prop, len(rrecs), time.time() - t0))
     res = validate_lines([rrecs[jj] for jj in sorted(rrecs)], [prop], ctx.work, 'vr')
@@ -765,7 +777,7 @@ def ascii_mutants(data, rnd, tier):
         vals = list(repl)
         if cur.isdigit():
             vals += [str(int(cur) + 1).encode(), str(max(0, int(cur) - 1)).encode()]
-        pick = vals if tier == 'thorough' else rnd.sample(vals, 5) + vals[-2:]
+        pick = vals if tier == 'thorough' else rnd.sample(vals, 4) + vals[-1:]
         for v in pick:
             if v != cur:
                 out.append((data[:a] + v + data[b:], 'tokreplace'))
